@@ -4,8 +4,12 @@
 //!
 //! Every seed is accepted by the crate's own parser (`selftest`).  Where the crate's writer emits
 //! something its own parser does not read back as written, the bytes are repaired after writing
-//! (each repair is marked REPAIR below and listed in `REPAIRS`); where it cannot be repaired the
-//! construct is left out of the seed.
+//! (marked REPAIR below).  /repo is being fixed while this check exists, so no repair is
+//! unconditional: the verbatim writer output is tried first and kept when it reads back with the
+//! content it was built from; a repair is applied only when the defect is seen in the bytes, and
+//! constructs a defective writer cannot carry (texture name through the writer, event ranges,
+//! model flag 0x8) are used when the writer handles them and dropped otherwise.  The seed names
+//! do not depend on which variant was taken; `report()` says which repairs were needed.
 //!
 //! Animated tracks: the writer copies key data from `raw_data.*_animation_data` and relocates the
 //! track headers through a map old offset -> new offset, so a model built from scratch gets its
@@ -26,7 +30,7 @@ use wow_m2::chunks::{
     M2Attachment, M2Camera, M2CameraFlags, M2Color, M2ColorAnimation, M2Event, M2Light, M2LightFlags, M2LightType, M2ParticleEmitter, M2ParticleEmitterType,
     M2ParticleFlags, M2RibbonEmitter, M2TextureAnimation, M2TextureAnimationType, M2TransparencyAnimation, M2Vertex,
 };
-use wow_m2::common::{C2Vector, C3Vector, M2Array, M2ArrayString, M2Parse, M2Vec, Quaternion};
+use wow_m2::common::{C2Vector, C3Vector, FixedString, M2Array, M2ArrayString, M2Parse, M2Vec, Quaternion};
 use wow_m2::header::{M2Header, M2ModelFlags};
 use wow_m2::model::{
     AttachmentAnimationRaw, AttachmentTrackType, BoneAnimationRaw, CameraAnimationRaw, CameraTrackType, ColorAnimationRaw, ColorTrackType, EmbeddedSkinRaw, EventRaw,
@@ -36,7 +40,7 @@ use wow_m2::model::{
 use wow_m2::skin::{OldSkin, OldSkinHeader, Skin, SkinBatch, SkinFile, SkinHeader, SkinSubmesh};
 use wow_m2::{M2Format, M2Model, M2Version};
 
-/// What had to be repaired in writer output / left out, for the report of the check.
+/// The repairs / omissions this module knows (applied only where the defect is detected).
 #[allow(dead_code)]
 pub const REPAIRS: &[&str] = &[
     "m2: texture file names are appended and the 16-byte texture records patched by hand (M2Model::write patches the name reference at data offset `textures.offset - size_of::<M2Header>()` = -376 instead of minus the written header size: the name is lost and 8 unrelated bytes are overwritten; a model whose texture records start before byte 376 makes write() panic, model.rs:3878)",
@@ -396,14 +400,21 @@ fn embedded_skin(vnum: u32) -> EmbeddedSkinRaw {
 
 const TEX_NAME: &str = "World\\Seed\\Tex_01.blp";
 
-fn rich(version: M2Version) -> M2Model {
+/// optional constructs of the rich model that a defective writer cannot carry
+const F_NAME: u8 = 1; // texture 0 named through the writer
+const F_EVRANGES: u8 = 2; // event 0 has a ranges array
+const F_COMBOS: u8 = 4; // model flag 0x8 (header gains texture_combiner_combos)
+/// preference order: as many constructs as the writer handles
+const FEATURE_ORDER: [u8; 8] = [7, 3, 5, 6, 1, 2, 4, 0];
+
+fn rich(version: M2Version, feat: u8) -> M2Model {
     let vnum = version.to_header_version();
     let classic = vnum <= 256;
     let mut fk = Fake(0x0100_0000);
     let mut m = M2Model::default();
     m.header = M2Header::new(version);
-    // 0x8 (texture combiners) is avoided: the writer keeps the flag and drops the header field
-    m.header.flags = M2ModelFlags::from_bits_retain(0x1 | 0x100 | 0x4000);
+    // 0x8 (texture combiners) only on request: a defective writer keeps the flag and drops the header field
+    m.header.flags = M2ModelFlags::from_bits_retain(0x1 | 0x100 | 0x4000 | if feat & F_COMBOS != 0 { 0x8 } else { 0 });
     m.header.bounding_box_min = [-1.0, -2.0, -3.0];
     m.header.bounding_box_max = [1.0, 2.0, 3.0];
     m.header.bounding_sphere_radius = 3.75;
@@ -443,9 +454,13 @@ fn rich(version: M2Version) -> M2Model {
         });
     }
 
-    // names are attached after writing (REPAIR, see `patch_m2`)
+    // without F_NAME the name is attached after writing (REPAIR, see `repair_m2`)
     for (ty, flg) in [(M2TextureType::Hardcoded, 1u32), (M2TextureType::Hair, 0), (M2TextureType::Monster3, 3)] {
         m.textures.push(M2Texture { texture_type: ty, flags: M2TextureFlags::from_bits_retain(flg), filename: M2ArrayString::default() });
+    }
+    if feat & F_NAME != 0 {
+        // convention of parsed objects: count includes the NUL, the offset is any non-zero placeholder
+        m.textures[0].filename = M2ArrayString { string: FixedString { data: TEX_NAME.as_bytes().to_vec() }, array: M2Array::new(TEX_NAME.len() as u32 + 1, 1) };
     }
     for i in 0..3usize {
         m.materials.push(M2Material { flags: M2RenderFlags::from_bits_retain([0u16, 0x15, 0x4][i]), blend_mode: M2BlendMode::from_bits_retain([0u16, 2, 4][i]) });
@@ -567,7 +582,7 @@ fn rich(version: M2Version) -> M2Model {
         m.raw_data.transparency_animation_data.push(raw!(TransparencyAnimationRaw, animation_index, 1, TransparencyTrackType::Alpha, k));
     }
 
-    // events: timestamps only (no ranges: the writer writes range bytes it neither references nor counts)
+    // events: timestamps; ranges only with F_EVRANGES (a defective writer writes range bytes it neither references nor counts)
     for i in 0..3usize {
         let mut e = M2Event::new([*b"$CST", *b"$DTH", *b"$HIT"][i], [2i16, -1, 0][i]);
         e.data = [0u32, 1234, 7][i];
@@ -576,7 +591,13 @@ fn rich(version: M2Version) -> M2Model {
         if i != 1 {
             let k = keys(&mut fk, i + 1, Val::F32(0), 0);
             e.times = M2Array::new(k.n, k.o_t);
-            m.raw_data.event_data.push(EventRaw { event_index: i, ranges: Vec::new(), original_ranges_offset: 0, timestamps: k.ts, original_timestamps_offset: k.o_t });
+            let (mut ranges, mut o_r) = (Vec::new(), 0);
+            if i == 0 && feat & F_EVRANGES != 0 {
+                o_r = fk.next();
+                ranges = u32s(&[0, 333]);
+                e.ranges = M2Array::new(1, o_r);
+            }
+            m.raw_data.event_data.push(EventRaw { event_index: i, ranges, original_ranges_offset: o_r, timestamps: k.ts, original_timestamps_offset: k.o_t });
         }
         m.events.push(e);
     }
@@ -654,35 +675,81 @@ fn write_m2(m: &M2Model) -> Result<Vec<u8>, String> {
     })
 }
 
-/// REPAIR of writer output: attach texture file names (appended to the file) and set the batch
-/// count of the embedded ModelView.
-fn patch_m2(bytes: &mut Vec<u8>, names: &[(usize, &str)], embedded_batches: u32) -> Result<(), String> {
+/// REPAIR of writer output, each step only where the defect shows in the bytes: attach the name
+/// of texture 0 (appended to the file) when the record has none, set the batch count of the
+/// embedded ModelView when it is not the number of 24-byte batches that were handed over.
+fn repair_m2(bytes: &mut Vec<u8>, tag: &str, notes: &mut Vec<String>) -> Result<(), String> {
     let hdr = guarded("M2Header::parse", || M2Header::parse(&mut Cursor::new(&bytes[..])).map_err(|e| e.to_string()))?;
-    for (i, name) in names {
-        if *i as u32 >= hdr.textures.count {
-            return Err(format!("texture {i} not in the written file"));
+    if hdr.textures.count > 0 {
+        let rec = hdr.textures.offset as usize;
+        if rec + 16 > bytes.len() {
+            return Err("texture records outside the written file".into());
         }
-        let rec = hdr.textures.offset as usize + 16 * i;
-        let at = bytes.len() as u32;
-        bytes.extend_from_slice(name.as_bytes());
-        bytes.push(0);
-        put_u32(bytes, rec + 8, name.len() as u32 + 1);
-        put_u32(bytes, rec + 12, at);
+        if get_u32(bytes, rec + 8) == 0 {
+            let at = bytes.len() as u32;
+            bytes.extend_from_slice(TEX_NAME.as_bytes());
+            bytes.push(0);
+            put_u32(bytes, rec + 8, TEX_NAME.len() as u32 + 1);
+            put_u32(bytes, rec + 12, at);
+            notes.push(format!("{tag}: texture name appended and texture record patched by hand"));
+        }
     }
-    if hdr.version <= 263 && hdr.views.count > 0 && embedded_batches > 0 {
+    if hdr.version <= 263 && hdr.views.count > 0 {
         let view = hdr.views.offset as usize;
-        if get_u32(bytes, view + 36) == 0 {
-            return Err("embedded ModelView has no batches offset".into());
+        if view + 44 > bytes.len() {
+            return Err("embedded ModelView outside the written file".into());
         }
-        put_u32(bytes, view + 32, embedded_batches);
+        if get_u32(bytes, view + 32) != 2 {
+            if get_u32(bytes, view + 36) == 0 {
+                return Err("embedded ModelView has no batches offset".into());
+            }
+            put_u32(bytes, view + 32, 2);
+            notes.push(format!("{tag}: batch count of the embedded ModelView patched by hand"));
+        }
     }
     Ok(())
 }
 
-fn m2_seeds(out: &mut Vec<RawSeed>) -> Result<(), String> {
+/// The rich model of a version: the variant with the most optional constructs whose written (and,
+/// where needed, repaired) bytes read back with everything the model was built from.
+fn rich_bytes(tag: &str, v: M2Version, notes: &mut Vec<String>) -> Result<Vec<u8>, String> {
+    let mut last = String::new();
+    for feat in FEATURE_ORDER {
+        let mut n = Vec::new();
+        let attempt = (|| {
+            let mut b = write_m2(&rich(v, feat))?;
+            repair_m2(&mut b, tag, &mut n)?;
+            let m = guarded("M2Model::parse", || M2Model::parse(&mut Cursor::new(&b[..])).map_err(|e| e.to_string()))?;
+            check_rich(&m, tag, Some(feat))?;
+            Ok::<Vec<u8>, String>(b)
+        })();
+        match attempt {
+            Ok(b) => {
+                let mut left = Vec::new();
+                if feat & F_NAME == 0 {
+                    left.push("texture name through the writer");
+                }
+                if feat & F_EVRANGES == 0 {
+                    left.push("event ranges");
+                }
+                if feat & F_COMBOS == 0 {
+                    left.push("model flag 0x8");
+                }
+                if !left.is_empty() {
+                    notes.push(format!("{tag}: writer cannot carry: {}", left.join(", ")));
+                }
+                notes.extend(n);
+                return Ok(b);
+            }
+            Err(e) => last = e,
+        }
+    }
+    Err(format!("{tag}: no variant of the rich model is read back as built; last: {last}"))
+}
+
+fn m2_seeds(out: &mut Vec<RawSeed>, notes: &mut Vec<String>) -> Result<(), String> {
     for (tag, v) in VERSIONS {
-        let mut b = write_m2(&rich(v)).map_err(|e| format!("{tag}_rich: {e}"))?;
-        patch_m2(&mut b, &[(0, TEX_NAME)], 2).map_err(|e| format!("{tag}_rich: {e}"))?;
+        let b = rich_bytes(&format!("{tag}_rich"), v, notes)?;
         out.push(RawSeed::new("m2", format!("{tag}_rich"), b));
         let b = write_m2(&minimal(v)).map_err(|e| format!("{tag}_min: {e}"))?;
         out.push(RawSeed::new("m2", format!("{tag}_min"), b));
@@ -845,8 +912,7 @@ fn md21(md20: &[u8], level: u8) -> Vec<u8> {
 }
 
 fn md21_seeds(out: &mut Vec<RawSeed>) -> Result<(), String> {
-    let mut rich_mop = write_m2(&rich(M2Version::MoP))?;
-    patch_m2(&mut rich_mop, &[(0, TEX_NAME)], 0)?;
+    let rich_mop = rich_bytes("md21 payload", M2Version::MoP, &mut Vec::new())?;
     let min_mop = write_m2(&minimal(M2Version::MoP))?;
     out.push(RawSeed::new("m2", "md21_only", md21(&min_mop, 0)));
     out.push(RawSeed::new("m2", "md21_sfid_txid", md21(&rich_mop, 1)));
@@ -892,8 +958,46 @@ fn batch(i: usize) -> SkinBatch {
     }
 }
 
-/// `layout`: None = old header (no version field), Some(v) = new header of that version
-fn skin(layout: Option<M2Version>, n_idx: usize, n_tri: usize, n_verts: usize, n_sub: usize, n_bat: usize) -> Result<Vec<u8>, String> {
+/// (name, layout: None = old header without version field, indices, triangles, vertices with bone indices, submeshes, batches)
+const SKINS: [(&str, Option<M2Version>, usize, usize, usize, usize, usize); 8] = [
+    // old layout: the first count must be > 4 or SkinFile::parse takes the file for the new layout
+    ("skin_old_3sub", None, 6, 3, 6, 3, 3),
+    ("skin_old_2sub", None, 8, 2, 4, 2, 2),
+    ("skin_old_nobatch", None, 5, 1, 0, 1, 0),
+    ("skin_new_cata_3sub", Some(M2Version::Cataclysm), 6, 3, 6, 3, 3),
+    ("skin_new_mop_2sub", Some(M2Version::MoP), 4, 2, 4, 2, 2),
+    ("skin_new_legion_2sub", Some(M2Version::Legion), 6, 2, 6, 2, 3),
+    ("skin_new_bfa_2sub", Some(M2Version::BfA), 6, 2, 6, 2, 2),
+    ("skin_new_empty", Some(M2Version::Cataclysm), 0, 0, 0, 0, 0),
+];
+
+/// the parsed skin has the content `skin` builds for these counts
+fn skin_content(p: &SkinFile, new_layout: bool, n_idx: usize, n_tri: usize, n_verts: usize, n_sub: usize, n_bat: usize) -> Result<(), String> {
+    if p.is_new_format() != new_layout {
+        return Err("parsed as the other header layout".into());
+    }
+    let got = (p.indices().len(), p.triangles().len(), p.bone_indices().len(), p.submeshes().len(), p.batches().len());
+    if got != (n_idx, n_tri * 3, n_verts * 4, n_sub, n_bat) {
+        return Err(format!("section lengths read back as {got:?}"));
+    }
+    for (k, bt) in p.batches().iter().enumerate() {
+        let w = batch(k);
+        if (bt.flags, bt.shader_id, bt.skin_section_index, bt.material_index, bt.texture_weight_combo_index, bt.texture_transform_combo_index)
+            != (w.flags, w.shader_id, w.skin_section_index, w.material_index, w.texture_weight_combo_index, w.texture_transform_combo_index)
+        {
+            return Err(format!("batch {k} reads back differently from what was written: {bt:?}"));
+        }
+    }
+    for (k, sm) in p.submeshes().iter().enumerate() {
+        let w = submesh(k);
+        if (sm.id, sm.bone_start, sm.bone_influence, sm.center, sm.bounding_radius) != (w.id, w.bone_start, w.bone_influence, w.center, w.bounding_radius) {
+            return Err(format!("submesh {k} reads back differently from what was written: {sm:?}"));
+        }
+    }
+    Ok(())
+}
+
+fn skin(name: &str, layout: Option<M2Version>, n_idx: usize, n_tri: usize, n_verts: usize, n_sub: usize, n_bat: usize, notes: &mut Vec<String>) -> Result<Vec<u8>, String> {
     let indices: Vec<u16> = (0..n_idx).map(|k| k as u16).collect();
     let triangles: Vec<u16> = (0..n_tri * 3).map(|k| (k % n_idx.max(1)) as u16).collect();
     let bone_indices: Vec<u8> = (0..n_verts * 4).map(|k| if k % 4 == 0 { (k / 4) as u8 } else { 0 }).collect();
@@ -922,31 +1026,52 @@ fn skin(layout: Option<M2Version>, n_idx: usize, n_tri: usize, n_verts: usize, n
         file.write(&mut c).map_err(|e| e.to_string())?;
         Ok(c.into_inner())
     })?;
-    // REPAIR: the writer advances by 40 bytes per (48-byte) submesh, so the batches offset it
-    // stores points into the submesh records
-    if n_sub > 0 && n_bat > 0 {
-        let at = if layout.is_some() { 56 } else { 40 };
-        let off = get_u32(&b, at);
-        put_u32(&mut b, at, off + 8 * n_sub as u32);
+    let reads_back = |b: &[u8]| {
+        let p = guarded("parse_skin", || wow_m2::parse_skin(&mut Cursor::new(b)).map_err(|e| e.to_string()))?;
+        skin_content(&p, layout.is_some(), n_idx, n_tri, n_verts, n_sub, n_bat)
+    };
+    let verbatim = reads_back(&b);
+    if verbatim.is_ok() {
+        return Ok(b);
     }
-    Ok(b)
+    // REPAIR (only when the verbatim file does not read back and the defect shows in the bytes):
+    // a writer that advances by 40 bytes per 48-byte submesh stores a batches offset that points
+    // into the submesh records
+    let (sub_off_at, bat_off_at) = if layout.is_some() { (48, 56) } else { (32, 40) };
+    if n_sub > 0 && n_bat > 0 && b.len() >= bat_off_at + 4 {
+        let want = get_u32(&b, sub_off_at) + 48 * n_sub as u32;
+        if get_u32(&b, bat_off_at) != want {
+            put_u32(&mut b, bat_off_at, want);
+            if reads_back(&b).is_ok() {
+                notes.push(format!("{name}: batches offset patched by hand to submeshes offset + 48 * {n_sub}"));
+                return Ok(b);
+            }
+        }
+    }
+    Err(format!("{name}: written skin does not read back as built: {}", verbatim.unwrap_err()))
 }
 
-fn skin_seeds(out: &mut Vec<RawSeed>) -> Result<(), String> {
-    // old layout: the first count must be > 4 or SkinFile::parse takes the file for the new layout
-    out.push(RawSeed::new("skin", "skin_old_3sub", skin(None, 6, 3, 6, 3, 3)?));
-    out.push(RawSeed::new("skin", "skin_old_2sub", skin(None, 8, 2, 4, 2, 2)?));
-    out.push(RawSeed::new("skin", "skin_old_nobatch", skin(None, 5, 1, 0, 1, 0)?));
-    out.push(RawSeed::new("skin", "skin_new_cata_3sub", skin(Some(M2Version::Cataclysm), 6, 3, 6, 3, 3)?));
-    out.push(RawSeed::new("skin", "skin_new_mop_2sub", skin(Some(M2Version::MoP), 4, 2, 4, 2, 2)?));
-    out.push(RawSeed::new("skin", "skin_new_legion_2sub", skin(Some(M2Version::Legion), 6, 2, 6, 2, 3)?));
-    out.push(RawSeed::new("skin", "skin_new_bfa_2sub", skin(Some(M2Version::BfA), 6, 2, 6, 2, 2)?));
-    out.push(RawSeed::new("skin", "skin_new_empty", skin(Some(M2Version::Cataclysm), 0, 0, 0, 0, 0)?));
+fn skin_seeds(out: &mut Vec<RawSeed>, notes: &mut Vec<String>) -> Result<(), String> {
+    for (name, layout, n_idx, n_tri, n_verts, n_sub, n_bat) in SKINS {
+        out.push(RawSeed::new("skin", name, skin(name, layout, n_idx, n_tri, n_verts, n_sub, n_bat, notes)?));
+    }
     Ok(())
 }
 
 // ---------------------------------------------------------------------------------------------
 // "anim"
+
+/// (name, modern container, per section the (track mask, keys) of every bone)
+const ANIMS: [(&str, bool, &[&[(u32, usize)]]); 8] = [
+    ("anim_legacy_1sec_0bones", false, &[&[]]),
+    ("anim_legacy_1sec_1bone", false, &[&[(7, 2)]]),
+    ("anim_legacy_3sec_3bones", false, &[&[(1, 3), (2, 1), (0, 0)], &[(4, 2)], &[]]),
+    ("anim_modern_0sec", true, &[]),
+    ("anim_modern_1sec_0bones", true, &[&[]]),
+    ("anim_modern_2sec_emptybones", true, &[&[(0, 0), (0, 0)], &[(0, 0)]]),
+    ("anim_modern_1sec_2bones", true, &[&[(7, 2), (2, 3)]]),
+    ("anim_modern_3sec_mixed", true, &[&[(1, 3), (0, 0), (6, 1)], &[], &[(4, 2)]]),
+];
 
 fn anim_bone(j: usize, mask: u32, nkeys: usize) -> AnimBoneAnimation {
     let ts: Vec<u32> = (0..nkeys).map(|k| (k * 333) as u32).collect();
@@ -963,8 +1088,33 @@ fn anim_bone(j: usize, mask: u32, nkeys: usize) -> AnimBoneAnimation {
     }
 }
 
-/// `shape[s]` = (track mask, keys) of every bone of section s
-fn anim(modern: bool, shape: &[Vec<(u32, usize)>]) -> Result<Vec<u8>, String> {
+/// the parsed modern file has the sections / bones / keys of `shape`
+fn anim_content(a: &AnimFile, shape: &[&[(u32, usize)]]) -> Result<(), String> {
+    if a.format != AnimFormat::Modern {
+        return Err(format!("detected as {:?}", a.format));
+    }
+    if a.sections.len() != shape.len() {
+        return Err(format!("{} sections read back, built with {}", a.sections.len(), shape.len()));
+    }
+    for (s, (sec, bones)) in a.sections.iter().zip(shape.iter()).enumerate() {
+        if sec.bone_animations.len() != bones.len() {
+            return Err(format!("section {s}: {} bones read back, built with {}", sec.bone_animations.len(), bones.len()));
+        }
+        for (j, (got, (mask, n))) in sec.bone_animations.iter().zip(bones.iter()).enumerate() {
+            let w = anim_bone(j, *mask, *n);
+            let same = got.bone_id == w.bone_id
+                && got.translation.as_ref().map(|t| (t.timestamps.clone(), t.translations.clone())) == w.translation.as_ref().map(|t| (t.timestamps.clone(), t.translations.clone()))
+                && got.rotation.as_ref().map(|t| (t.timestamps.clone(), t.rotations.clone())) == w.rotation.as_ref().map(|t| (t.timestamps.clone(), t.rotations.clone()))
+                && got.scaling.as_ref().map(|t| (t.timestamps.clone(), t.scalings.clone())) == w.scaling.as_ref().map(|t| (t.timestamps.clone(), t.scalings.clone()));
+            if !same {
+                return Err(format!("section {s} bone {j} reads back differently: {got:?}"));
+            }
+        }
+    }
+    Ok(())
+}
+
+fn anim(name: &str, modern: bool, shape: &[&[(u32, usize)]], notes: &mut Vec<String>) -> Result<Vec<u8>, String> {
     let sections: Vec<AnimSection> = shape
         .iter()
         .enumerate()
@@ -989,56 +1139,91 @@ fn anim(modern: bool, shape: &[Vec<(u32, usize)>]) -> Result<Vec<u8>, String> {
         file.write(&mut c).map_err(|e| e.to_string())?;
         Ok(c.into_inner())
     })?;
-    if modern {
-        // REPAIR: the parser computes the bone count of a section as (entry.size - 16) / 4 while
-        // the writer stores the length of the whole section (offset table + key data) there
-        for (s, bones) in shape.iter().enumerate() {
-            if bones.iter().any(|(mask, _)| *mask != 0) {
-                put_u32(&mut b, 20 + 12 * s + 8, 16 + 4 * bones.len() as u32);
-            }
+    if !modern {
+        // the legacy parser does not decode sections: acceptance is all that can be asked
+        guarded("AnimFile::parse", || AnimFile::parse(&mut Cursor::new(&b[..])).map(|_| ()).map_err(|e| e.to_string())).map_err(|e| format!("{name}: {e}"))?;
+        return Ok(b);
+    }
+    let reads_back = |b: &[u8]| {
+        let a = guarded("AnimFile::parse", || AnimFile::parse(&mut Cursor::new(b)).map_err(|e| e.to_string()))?;
+        anim_content(&a, shape)
+    };
+    let verbatim = reads_back(&b);
+    if verbatim.is_ok() {
+        return Ok(b);
+    }
+    // REPAIR (only when the verbatim file does not read back): a parser that computes the bone
+    // count of a section as (entry.size - 16) / 4 needs the size of header + offset table there,
+    // the writer stores the length of the whole section (offset table + key data)
+    let mut patched = 0;
+    for (s, bones) in shape.iter().enumerate() {
+        let at = 20 + 12 * s + 8;
+        let want = 16 + 4 * bones.len() as u32;
+        if at + 4 <= b.len() && get_u32(&b, at) != want {
+            put_u32(&mut b, at, want);
+            patched += 1;
         }
     }
-    Ok(b)
+    if patched > 0 && reads_back(&b).is_ok() {
+        notes.push(format!("{name}: entry.size of {patched} section(s) patched by hand to 16 + 4 * bones"));
+        return Ok(b);
+    }
+    Err(format!("{name}: written anim does not read back as built: {}", verbatim.unwrap_err()))
 }
 
-fn anim_seeds(out: &mut Vec<RawSeed>) -> Result<(), String> {
-    out.push(RawSeed::new("anim", "anim_legacy_1sec_0bones", anim(false, &[vec![]])?));
-    out.push(RawSeed::new("anim", "anim_legacy_1sec_1bone", anim(false, &[vec![(7, 2)]])?));
-    out.push(RawSeed::new("anim", "anim_legacy_3sec_3bones", anim(false, &[vec![(1, 3), (2, 1), (0, 0)], vec![(4, 2)], vec![]])?));
-    out.push(RawSeed::new("anim", "anim_modern_0sec", anim(true, &[])?));
-    out.push(RawSeed::new("anim", "anim_modern_1sec_0bones", anim(true, &[vec![]])?));
-    out.push(RawSeed::new("anim", "anim_modern_2sec_emptybones", anim(true, &[vec![(0, 0), (0, 0)], vec![(0, 0)]])?));
-    out.push(RawSeed::new("anim", "anim_modern_1sec_2bones", anim(true, &[vec![(7, 2), (2, 3)]])?));
-    out.push(RawSeed::new("anim", "anim_modern_3sec_mixed", anim(true, &[vec![(1, 3), (0, 0), (6, 1)], vec![], vec![(4, 2)]])?));
+fn anim_seeds(out: &mut Vec<RawSeed>, notes: &mut Vec<String>) -> Result<(), String> {
+    for (name, modern, shape) in ANIMS {
+        out.push(RawSeed::new("anim", name, anim(name, modern, shape, notes)?));
+    }
     Ok(())
 }
 
 // ---------------------------------------------------------------------------------------------
 // interface
 
-fn build() -> Result<Vec<RawSeed>, String> {
+fn build(notes: &mut Vec<String>) -> Result<Vec<RawSeed>, String> {
     let mut out = Vec::new();
-    m2_seeds(&mut out)?;
+    m2_seeds(&mut out, notes)?;
     md21_seeds(&mut out)?;
-    skin_seeds(&mut out)?;
-    anim_seeds(&mut out)?;
+    skin_seeds(&mut out, notes)?;
+    anim_seeds(&mut out, notes)?;
     Ok(out)
 }
 
 /// All seeds (deterministic). A seed whose construction fails is reported by `selftest`.
 pub fn seeds() -> Vec<RawSeed> {
     let mut out = Vec::new();
+    let mut notes = Vec::new();
     // each group separately so that one failing writer call does not lose the other groups
-    let _ = m2_seeds(&mut out);
+    let _ = m2_seeds(&mut out, &mut notes);
     let _ = md21_seeds(&mut out);
-    let _ = skin_seeds(&mut out);
-    let _ = anim_seeds(&mut out);
+    let _ = skin_seeds(&mut out, &mut notes);
+    let _ = anim_seeds(&mut out, &mut notes);
     out
 }
 
-fn check_rich(m: &M2Model, name: &str) -> Result<(), String> {
+/// Which repairs / omissions were needed with the /repo this was built against (one per line).
+#[allow(dead_code)]
+pub fn report() -> String {
+    let mut notes = Vec::new();
+    let r = build(&mut notes);
+    let mut s = String::new();
+    if notes.is_empty() {
+        s.push_str("seeds_m2: all seeds are verbatim writer output\n");
+    }
+    for n in notes {
+        s.push_str(&format!("seeds_m2: {n}\n"));
+    }
+    if let Err(e) = r {
+        s.push_str(&format!("seeds_m2: BUILD FAILED: {e}\n"));
+    }
+    s
+}
+
+/// `feat`: the optional constructs the model was built with (None: accept whichever are present)
+fn check_rich(m: &M2Model, name: &str, feat: Option<u8>) -> Result<(), String> {
     let pre = m.header.version <= 263;
-    let want: [(&str, usize, usize); 24] = [
+    let want: [(&str, usize, usize); 26] = [
         ("global_sequences", m.global_sequences.len(), 3),
         ("animations", m.animations.len(), 3),
         ("animation_lookup", m.animation_lookup.len(), 3),
@@ -1052,6 +1237,8 @@ fn check_rich(m: &M2Model, name: &str) -> Result<(), String> {
         ("bounding_vertices bytes", m.raw_data.bounding_vertices.len(), 48),
         ("embedded skins", m.raw_data.embedded_skins.len(), if pre { 1 } else { 0 }),
         ("embedded batches bytes", m.raw_data.embedded_skins.first().map(|s| s.batches.len()).unwrap_or(0), if pre { 48 } else { 0 }),
+        ("embedded submesh bytes", m.raw_data.embedded_skins.first().map(|s| s.submeshes.len()).unwrap_or(0), if !pre { 0 } else if m.header.version < 260 { 64 } else { 96 }),
+        ("particle emitters", m.particle_emitters.len(), 2),
         ("particle tracks", m.raw_data.particle_animation_data.len(), 4),
         ("ribbon tracks", m.raw_data.ribbon_animation_data.len(), 3),
         ("texture animation tracks", m.raw_data.texture_animation_data.len(), 3),
@@ -1075,13 +1262,55 @@ fn check_rich(m: &M2Model, name: &str) -> Result<(), String> {
     if m.textures[0].filename.string.data != TEX_NAME.as_bytes() {
         return Err(format!("{name}: texture 0 name reads back as {:?}", String::from_utf8_lossy(&m.textures[0].filename.string.data)));
     }
-    // key data of the first bone track came back as written
+    // sections in front of / behind the textures came back as written (a misplaced name patch
+    // or a stale running offset of the writer shows here)
+    for (i, v) in m.vertices.iter().enumerate() {
+        if v.position != v3(i * 2) || v.normal != v3(i + 5) || v.tex_coords != v2(i + 1) || v.tex_coords2 != Some(v2(i + 6)) {
+            return Err(format!("{name}: vertex {i} reads back differently: {v:?}"));
+        }
+    }
+    if m.key_bone_lookup != vec![0xFFFF, 0, 2] || m.raw_data.texture_lookup_table != vec![0, 1, 2] || m.raw_data.camera_lookup_table != vec![0, 1, 0xFFFF] {
+        return Err(format!("{name}: lookup tables read back differently"));
+    }
     let t = &m.raw_data.bone_animation_data[0];
     if t.timestamps != u32s(&[0, 333, 666]) || t.values.len() != 36 {
         return Err(format!("{name}: bone 0 translation keys read back differently ({} ts bytes, {} value bytes)", t.timestamps.len(), t.values.len()));
     }
-    if m.particle_emitters.len() != 2 || m.particle_emitters[0].xy_scale_animation.track.values.data.len() != 3 {
-        return Err(format!("{name}: particle emitter 0 xy_scale keys not read back"));
+    let keyed: [(&str, &[f32], Vec<f32>); 5] = [
+        ("particle emitter 0 emission speed", &m.particle_emitters[0].emission_speed_animation.track.values.data, vec![0.25, 0.5]),
+        ("transparency animation 1 alpha", &m.transparency_animations[1].alpha.track.values.data, vec![0.25, 0.5]),
+        ("attachment 1 scale", &m.attachments[1].scale_animation.track.values.data, vec![0.25, 0.5]),
+        ("camera 1 roll", &m.cameras[1].roll_animation.track.values.data, vec![0.25, 0.5]),
+        ("light 1 attenuation start", &m.lights[1].attenuation_start_animation.track.values.data, vec![0.25, 0.5]),
+    ];
+    for (what, got, exp) in keyed {
+        if got != &exp[..] {
+            return Err(format!("{name}: keys of {what} read back as {got:?}, written {exp:?}"));
+        }
+    }
+    if m.particle_emitters[0].xy_scale_animation.track.values.data.len() != 3 || m.cameras[0].position_animation.track.values.data.len() != 2 {
+        return Err(format!("{name}: vector keys not read back"));
+    }
+    let ev = &m.raw_data.event_data;
+    if ev[0].timestamps != u32s(&[0]) || ev[1].timestamps != u32s(&[0, 333, 666]) || m.events[2].identifier != *b"$HIT" {
+        return Err(format!("{name}: event timestamps read back differently"));
+    }
+    // optional constructs
+    let has_ranges = m.events[0].ranges.count == 1 && ev[0].ranges == u32s(&[0, 333]);
+    if !has_ranges && (m.events[0].ranges.count != 0 || !ev[0].ranges.is_empty()) {
+        return Err(format!("{name}: event 0 ranges read back damaged: {:?} / {} bytes", m.events[0].ranges, ev[0].ranges.len()));
+    }
+    let flag8 = m.header.flags.bits() & 0x8 != 0;
+    if flag8 && m.header.texture_combiner_combos != Some(M2Array::new(0, 0)) {
+        return Err(format!("{name}: flag 0x8 set but texture_combiner_combos reads back as {:?}", m.header.texture_combiner_combos));
+    }
+    if m.header.flags.bits() & !0x8 != 0x4101 {
+        return Err(format!("{name}: model flags read back as {:#x}", m.header.flags.bits()));
+    }
+    if let Some(f) = feat {
+        if has_ranges != (f & F_EVRANGES != 0) || flag8 != (f & F_COMBOS != 0) {
+            return Err(format!("{name}: optional constructs read back as ranges={has_ranges} flag8={flag8}, built with {f:#b}"));
+        }
     }
     Ok(())
 }
@@ -1145,11 +1374,18 @@ fn test_m2(s: &RawSeed) -> Result<(), String> {
         if n == "md21_all" {
             check_md21_all(f.model(), n)?;
         }
+        // the MD21 payload is itself a valid MD20 file
+        let size = get_u32(b, 4) as usize;
+        let inner = &b[8..8 + size];
+        let m = guarded(&format!("{n}: M2Model::parse(MD21 payload)"), || M2Model::parse(&mut Cursor::new(inner)).map_err(|e| e.to_string()))?;
+        if size > 1024 {
+            check_rich(&m, n, None)?;
+        }
     } else {
         let m = direct?;
         if n.ends_with("_rich") {
-            check_rich(&m, n)?;
-            check_rich(f.model(), n)?;
+            check_rich(&m, n, None)?;
+            check_rich(f.model(), n, None)?;
         }
     }
     Ok(())
@@ -1158,12 +1394,12 @@ fn test_m2(s: &RawSeed) -> Result<(), String> {
 fn test_skin(s: &RawSeed) -> Result<(), String> {
     let b = &s.bytes;
     let n = &s.name;
+    let Some((_, layout, n_idx, n_tri, n_verts, n_sub, n_bat)) = SKINS.iter().find(|x| x.0 == n.as_str()).copied() else {
+        return Err(format!("{n}: not in the skin table"));
+    };
+    let new_layout = layout.is_some();
     let p1 = guarded(&format!("{n}: parse_skin"), || wow_m2::parse_skin(&mut Cursor::new(&b[..])).map_err(|e| e.to_string()))?;
     let p2 = guarded(&format!("{n}: SkinFile::parse"), || SkinFile::parse(&mut Cursor::new(&b[..])).map_err(|e| e.to_string()))?;
-    let new_layout = n.starts_with("skin_new");
-    if p1.is_new_format() != new_layout || p2.is_new_format() != new_layout {
-        return Err(format!("{n}: parsed as the other header layout"));
-    }
     let typed: SkinFile = if new_layout {
         guarded(&format!("{n}: Skin::parse"), || Skin::parse(&mut Cursor::new(&b[..])).map(SkinFile::New).map_err(|e| e.to_string()))?
     } else {
@@ -1180,17 +1416,8 @@ fn test_skin(s: &RawSeed) -> Result<(), String> {
             return Err(format!("{n}: parser of the other layout: {e}"));
         }
     }
-    for p in [&p1, &typed] {
-        for (k, bt) in p.batches().iter().enumerate() {
-            if bt.skin_section_index != k as u16 || bt.material_index != k as u16 + 2 || bt.texture_weight_combo_index != k as u16 + 5 {
-                return Err(format!("{n}: batch {k} reads back differently from what was written: {bt:?}"));
-            }
-        }
-        for (k, sm) in p.submeshes().iter().enumerate() {
-            if sm.bone_start != k as u16 || sm.bounding_radius != 1.0 + k as f32 {
-                return Err(format!("{n}: submesh {k} reads back differently from what was written: {sm:?}"));
-            }
-        }
+    for p in [&p1, &p2, &typed] {
+        skin_content(p, new_layout, n_idx, n_tri, n_verts, n_sub, n_bat).map_err(|e| format!("{n}: {e}"))?;
     }
     Ok(())
 }
@@ -1198,8 +1425,10 @@ fn test_skin(s: &RawSeed) -> Result<(), String> {
 fn test_anim(s: &RawSeed) -> Result<(), String> {
     let b = &s.bytes;
     let n = &s.name;
+    let Some((_, modern, shape)) = ANIMS.iter().find(|x| x.0 == n.as_str()).copied() else {
+        return Err(format!("{n}: not in the anim table"));
+    };
     let a = guarded(&format!("{n}: AnimFile::parse"), || AnimFile::parse(&mut Cursor::new(&b[..])).map_err(|e| e.to_string()))?;
-    let modern = n.starts_with("anim_modern");
     if (a.format == AnimFormat::Modern) != modern {
         return Err(format!("{n}: detected as {:?}", a.format));
     }
@@ -1212,34 +1441,8 @@ fn test_anim(s: &RawSeed) -> Result<(), String> {
         }
     }
     if modern {
-        // sections and keyed bones come back as built
-        let want_sections: usize = match n.as_str() {
-            "anim_modern_0sec" => 0,
-            "anim_modern_1sec_0bones" | "anim_modern_1sec_2bones" => 1,
-            "anim_modern_2sec_emptybones" => 2,
-            _ => 3,
-        };
         for p in [&a, &a2] {
-            if p.sections.len() != want_sections {
-                return Err(format!("{n}: {} sections read back, built with {want_sections}", p.sections.len()));
-            }
-        }
-        if n == "anim_modern_1sec_2bones" {
-            let bs = &a.sections[0].bone_animations;
-            let ok = bs.len() == 2
-                && bs[0].translation.as_ref().map(|t| t.timestamps.len()) == Some(2)
-                && bs[0].scaling.as_ref().map(|t| t.scalings.len()) == Some(2)
-                && bs[1].rotation.as_ref().map(|t| t.rotations.len()) == Some(3)
-                && bs[1].translation.is_none();
-            if !ok {
-                return Err(format!("{n}: bone animations read back differently: {bs:?}"));
-            }
-        }
-        if n == "anim_modern_3sec_mixed" {
-            let c: Vec<usize> = a.sections.iter().map(|s| s.bone_animations.len()).collect();
-            if c != vec![3, 0, 1] {
-                return Err(format!("{n}: bones per section read back as {c:?}"));
-            }
+            anim_content(p, shape).map_err(|e| format!("{n}: {e}"))?;
         }
     }
     Ok(())
@@ -1247,10 +1450,13 @@ fn test_anim(s: &RawSeed) -> Result<(), String> {
 
 /// Every seed parses `Ok` with the crate's parser for its format (and carries what it was built with).
 pub fn selftest() -> Result<(), String> {
-    let all = build()?;
+    let all = build(&mut Vec::new())?;
     let listed = seeds();
     if all.len() != listed.len() || all.iter().zip(listed.iter()).any(|(a, b)| a.name != b.name || a.bytes != b.bytes || a.fmt != b.fmt) {
         return Err("seeds() is not deterministic".into());
+    }
+    if all.len() != 30 {
+        return Err(format!("{} seeds instead of 30", all.len()));
     }
     let mut names = std::collections::BTreeSet::new();
     let mut errs = Vec::new();
